@@ -218,6 +218,9 @@ def extract_region(path, qualname, cls):
     # per-thread declarations inside the region, before the first work-sharing loop
     first_for = re.search(r"#pragma\s+omp\s+for", region)
     private = re.findall(r"Vector<double>\s+(\w+)\s*\(", region[:first_for.start()] if first_for else region)
+    # vectors declared in the function BEFORE the region (hence shared by the team) that the region's code uses by name and that are
+    # not parameters of the function: a workspace that moved out of the region shows up here
+    shared_locals = [v for v in re.findall(r"Vector<double>\s+(\w+)\s*\(", fn[:m.start()]) if re.search(r"\b" + re.escape(v) + r"\b", region)]
     loops = []
     pos = 0
     while True:
@@ -245,7 +248,7 @@ def extract_region(path, qualname, cls):
         pos = bclose + 1
     # anything else in the region that is not a declaration or a loop is outside the subset
     leftover = region
-    return dict(loops=loops, private=private, has_if=("if" in m.group(0)))
+    return dict(loops=loops, private=private, shared_locals=shared_locals, has_if=("if" in m.group(0)))
 
 
 def other_regions():
@@ -301,7 +304,8 @@ def main():
             lines.append(f"def {name}_private : List String := {json.dumps(r['private'])}")
             lines.append("")
             summary["regions"].append(dict(name=name, function=qual, file=path, loops=len(r["loops"]),
-                                           nowait=[i for i, l in enumerate(r["loops"]) if l["nowait"]], private=r["private"]))
+                                           nowait=[i for i, l in enumerate(r["loops"]) if l["nowait"]], private=r["private"],
+                                           shared_locals=r["shared_locals"]))
         lines.append("def all : List Region := [" + ", ".join(n for _, _, n, _ in REGIONS) + "]")
         lines.append("end Sched.Gen")
     except ExtractError as e:
